@@ -3,6 +3,7 @@
 package c10
 
 import (
+	"sync"
 	"errors"
 	"fmt"
 	"strings"
@@ -312,4 +313,120 @@ func Run(r *ev.Run) {
 	r.Rule = "field faults: for each seeded base case every fault-capable site (object/array marshaler error at a chosen position, panicking Stringer/error, unencodable reflected value, failing zap.Stringers element) is made to fail in turn, plus one multi-fault variant; the entry goes through a real Logger and its line is compared with 'all other fields intact plus <key>Error'; sink faults: every outcome vector over {ok, (0,err), (short,err), (full,err), (short,nil), sync error, failing core} for 1..3 (quick) / 4 (thorough) tee destinations and multi-syncer sinks, rotated over a sequence of entries; distinct = distinct (base, site) / vectors"
 	fieldFaults(r)
 	sinkFaults(r)
+	backgroundFlushFaults(r)
+}
+
+// ---- a transient sink failure first seen by the background flush ---------------------------------
+
+type tickClock struct {
+	mu  sync.Mutex
+	chs []chan time.Time
+}
+
+func (c *tickClock) Now() time.Time { return time.Unix(1, 0) }
+func (c *tickClock) NewTicker(time.Duration) *time.Ticker {
+	ch := make(chan time.Time)
+	c.mu.Lock()
+	c.chs = append(c.chs, ch)
+	c.mu.Unlock()
+	return &time.Ticker{C: ch}
+}
+
+// flakySink fails its first `failures` writes, then recovers.
+type flakySink struct {
+	mu       sync.Mutex
+	failures int
+	attempts int
+	got      []byte
+}
+
+func (s *flakySink) Write(p []byte) (int, error) {
+	s.mu.Lock()
+	defer s.mu.Unlock()
+	s.attempts++
+	if s.attempts <= s.failures {
+		return 0, fmt.Errorf("flaky-sink-write-%d-failed", s.attempts)
+	}
+	s.got = append(s.got, p...)
+	return len(p), nil
+}
+func (s *flakySink) Sync() error { return nil }
+func (s *flakySink) tried() int  { s.mu.Lock(); defer s.mu.Unlock(); return s.attempts }
+
+// backgroundFlushFaults: entries sit in a BufferedWriteSyncer; the timer-driven flush (a harness
+// tick) is the first to meet the failing sink and has nobody to report to. The failure must still
+// come out on the error output - with the next entry, or with Sync/Stop returning an error that
+// the caller sees - and the call that meets it must return normally.
+func backgroundFlushFaults(r *ev.Run) {
+	n := r.N(150, 4000)
+	for i := 0; i < n; i++ {
+		id := fmt.Sprintf("c10/background-flush/%d", i)
+		if !r.Want(id) {
+			continue
+		}
+		g := rng.For(r.Seed, "c10/bgflush", i)
+		clk := &tickClock{}
+		sink := &flakySink{failures: g.Range(1, 2)}
+		eo := &rec.Sink{}
+		b := &zapcore.BufferedWriteSyncer{WS: sink, Size: 4096, FlushInterval: time.Hour, Clock: clk}
+		lg := zap.New(zapcore.NewCore(zapcore.NewJSONEncoder(sinkCfg), b, zapcore.DebugLevel), zap.ErrorOutput(eo))
+		before := g.Range(1, 3)
+		for k := 0; k < before; k++ {
+			lg.Info(fmt.Sprintf("before-tick-%d", k))
+		}
+		// deliver the tick and wait until the flush loop has tried the sink (a condition, not a time)
+		clk.mu.Lock()
+		chs := append([]chan time.Time(nil), clk.chs...)
+		clk.mu.Unlock()
+		if len(chs) == 0 {
+			r.Inconclusive(id + ": the buffered syncer created no ticker")
+			continue
+		}
+		ticked := false
+		select {
+		case chs[0] <- time.Unix(2, 0):
+			ticked = true
+		case <-time.After(30 * time.Second):
+		}
+		for w := 0; ticked && sink.tried() == 0 && w < 30000; w++ {
+			time.Sleep(time.Millisecond)
+		}
+		if !ticked || sink.tried() == 0 {
+			r.Inconclusive(id + ": the flush loop did not reach the sink")
+			_ = b.Stop()
+			continue
+		}
+		// the sink has recovered (or will after one more failure); keep logging, then flush for real
+		var syncErrs []string
+		after := g.Range(1, 4)
+		pn := ev.Guard(func() {
+			for k := 0; k < after; k++ {
+				lg.Warn(fmt.Sprintf("after-tick-%d", k), zap.Int("k", k))
+			}
+			if err := lg.Sync(); err != nil {
+				syncErrs = append(syncErrs, err.Error())
+			}
+			if err := b.Stop(); err != nil {
+				syncErrs = append(syncErrs, err.Error())
+			}
+		})
+		r.Eval(1)
+		r.Distinct(fmt.Sprintf("bgflush|%d|%d|%d|%d", i, sink.failures, before, after))
+		r.Count("background_flush_fault_cases", 1)
+		if pn != "" {
+			r.Violate(ev.Violation{Case: id, Class: "sink-fault-panic", Msg: "logging after a failed background flush panicked: " + pn})
+			continue
+		}
+		reported := string(eo.All()) + strings.Join(syncErrs, " ")
+		if !strings.Contains(reported, "flaky-sink-write-1-failed") {
+			r.Violate(ev.Violation{Case: id, Class: "not-reported", Msg: fmt.Sprintf("the sink failed during the timer-driven flush of a BufferedWriteSyncer (%d entries buffered, %d logged afterwards, then Sync and Stop): the failure appears neither on the error output nor in an error returned by Sync/Stop (error output %q, returned %q)", before, after, clipB(eo.All()), syncErrs)})
+		}
+	}
+}
+
+func clipB(b []byte) string {
+	if len(b) > 300 {
+		return string(b[:300]) + "..."
+	}
+	return string(b)
 }
